@@ -297,12 +297,12 @@ class Controller:
         self._settle()
 
     # ----- teardown
-    def teardown(self) -> None:
+    def teardown(self, wait: bool = True) -> None:
         for r in self.recs:
             r.gate.set()
         for p in self.pools:
             try:
-                p.shutdown(wait=True)
+                p.shutdown(wait=wait, cancel_futures=not wait)
             except Exception:
                 pass
 
@@ -748,7 +748,7 @@ def run_controlled(op, *, prefix=(), is_async=False, batch_order=False, watchdog
     finally:
         disarm_watchdog()
         c.counting = False
-        c.teardown()
+        c.teardown(wait=(res.outcome != "hang"))  # a deadlocked worker of a hung execution is abandoned, not joined
         set_controller(None)
     if c.pos < len(c.prefix):
         raise HarnessError(f"replay divergence: only {c.pos} of {len(c.prefix)} prefix choices were consumed")
